@@ -376,5 +376,7 @@ def check_msgs(msgs, g):
     for m in msgs:
         if "ignoring forall" in m or "ignoring exists" in m:
             raise Undecided(f"{g.name}: quantifier ignored by back end: {m}")
+        if "out of memory" in m.lower():
+            raise Undecided(f"{g.name}: solver ran out of memory: {m}")
         if "Parse Error" in m:
             raise Undecided(f"{g.name}: solver parse error: {m}")
